@@ -1478,7 +1478,9 @@ impl<'a> Body<'a> {
                 visit_mut::visit_expr_mut(self, e);
             }
         }
+        let cond_any = matches!(stmt, Stmt::Expr(Expr::If(ifx), _) if matches!(match_chain(&ifx.cond), Some((ref kd, ..)) if kd == "any"));
         match stmt {
+            Stmt::Expr(Expr::If(_), _) if cond_any => {}
             Stmt::Expr(Expr::ForLoop(_), _) | Stmt::Expr(Expr::While(_), _) | Stmt::Expr(Expr::Loop(_), _) | Stmt::Expr(Expr::If(_), _) | Stmt::Expr(Expr::Block(_), _) | Stmt::Expr(Expr::Unsafe(_), _) | Stmt::Item(_) | Stmt::Macro(_) => return None,
             _ => {}
         }
@@ -1486,7 +1488,14 @@ impl<'a> Body<'a> {
         let var = ident(&format!("__acc{k}"));
         let mut f = Finder { found: None, var: var.clone() };
         let mut st = stmt.clone();
-        f.visit_stmt_mut(&mut st);
+        if cond_any {
+            // only the condition of the `if` is searched
+            if let Stmt::Expr(Expr::If(ifx), _) = &mut st {
+                f.visit_expr_mut(&mut ifx.cond);
+            }
+        } else {
+            f.visit_stmt_mut(&mut st);
+        }
         let (kind, src, m, body, dflt) = f.found?;
         self.counter += 1;
         let (end, i) = (ident(&format!("__end{k}")), ident(&format!("__i{k}")));
@@ -1519,6 +1528,14 @@ impl<'a> Body<'a> {
                     let #capv = #cap;
                     let mut #var: usize = 0;
                     loop { if #var >= #capv || #var >= #s0.len() { break; } let #m = #s0[#s0.len() - 1 - #var]; if !(#body) { break; } #var += 1; }
+                ))
+            }
+            "any" => {
+                self.note("R16", format!("{}.iter().any(|{}| ..) -> first-match loop", src.to_token_stream(), m));
+                parse_stmts(quote!(
+                    let mut #var: bool = false;
+                    let mut #i = 0;
+                    while #i < #src.len() { let #m = &#src[#i]; if #body { #var = true; break; } #i += 1; }
                 ))
             }
             "count" => {
@@ -1870,6 +1887,11 @@ fn match_chain(e: &Expr) -> Option<(String, Expr, Ident, Expr, Option<Expr>)> {
         // the element type of `sum::<T>()` rides in the "default" slot as a path expression
         let ty: Option<Expr> = top.turbofish.as_ref().and_then(|t| t.args.first()).and_then(|a| match a { GenericArgument::Type(Type::Path(tp)) => Some(Expr::Path(ExprPath { attrs: vec![], qself: None, path: tp.path.clone() })), _ => None });
         return Some(("sum".into(), iter_src(&map.receiver)?, one_param(c)?, (*c.body).clone(), ty));
+    }
+    if top.method == "any" && top.args.len() == 1 {
+        // R16c: S.iter().any(|x| P)
+        let Expr::Closure(c) = &top.args[0] else { return None };
+        return Some(("any".into(), iter_src(&top.receiver)?, one_param(c)?, (*c.body).clone(), None));
     }
     if top.method == "count" && top.args.is_empty() {
         if let Expr::MethodCall(fil) = &*top.receiver {
